@@ -301,6 +301,8 @@ func (x *executor) checkFrameRef(m *machine, fr *frame, in ssa.Instruction, heap
 	allowed := func(set []modTarget, mark *T) *T {
 		var alts []*T
 		// allocated after mark
+		// the nil reference is never a real region: "writing" to it is vacuous
+		alts = append(alts, mkEq(ref, refConst(0)))
 		lt := app("<", "Bool", ref, mark)
 		if a, ok := numeralValue(ref); ok {
 			if b, ok2 := numeralValue(mark); ok2 {
